@@ -281,8 +281,11 @@ Record rflags := mkFlags {
   if_truncates : bool;        (* fn if_branch *)
   case_truncates : bool;      (* fn case_branch *)
   else_truncates : bool;      (* the `fall_through` block of a case, resolved inside fn expression *)
-  access_local_first : bool   (* `x.f`: is x looked up on the scope stack before the namespace table?
+  access_local_first : bool;  (* `x.f`: is x looked up on the scope stack before the namespace table?
                                  On the pinned tree it is not (AK::Access calls namespace_list first). *)
+  imports_fixpoint : bool     (* `pub fn resolve`: is the use / from-use pass repeated (errors dropped) until a
+                                 round over all modules adds no name, before the pass that reports?  On the
+                                 pinned tree it is not: the pass runs once, in `tree.modules` order. *)
 }.
 
 (* the innermost name of a chain of accesses `x.a.b`, if the assignable is such a chain *)
@@ -637,6 +640,55 @@ Fixpoint resolve_global_variables (f : file_or_lib) (ss : list pstmt) : M unit :
 Fixpoint for_each {A} (f : A -> M unit) (l : list A) : M unit :=
   match l with [] => ret tt | x :: xs => _ <- f x ;; for_each f xs end.
 
+(* ---- the import pass repeated to a fixpoint (`imports_fixpoint`) ----
+   `let _ = resolver.resolve_global_variables(..)`: the pass run for its insertions only.  In the code a
+   failing `use` / from-item pushes an error and the loop goes on with the state unchanged; the model of the
+   reporting pass stops at the first error, so the quiet pass is written item by item: a failing item is
+   skipped.  (One item changes the state at most once, as its last action.) *)
+Definition try_ (m : M unit) : M unit :=
+  fun st => match m st with Err _ => Ok (tt, st) | r => r end.
+
+Definition quiet_stmt (f : file_or_lib) (s : pstmt) : M unit :=
+  match s with
+  | PFromUse _ imports file sp => for_each (fun it => try_ (from_imports f file sp [it])) imports
+  | PUse _ _ _ _ => try_ (resolve_global_variables f [s])
+  | _ => ret tt
+  end.
+
+Definition quiet_pass (f : file_or_lib) (ss : list pstmt) : M unit := for_each (quiet_stmt f) ss.
+
+Definition quiet_round (ast : past) : M unit := for_each (fun m => quiet_pass (m_file m) (m_stmts m)) ast.
+
+(* fn imported_names: how many names all namespaces hold together *)
+Definition names_count (st : rstate) : nat := fold_right (fun p n => length (snd p) + n) 0 (st_ns st).
+
+(* `loop { let before = ..; <round>; if .. == before { break } }`; the number of rounds is bounded by the
+   number of use statements and from-items plus one (every one of them inserts at most once): with that many
+   rounds OutOfFuel is never reached (Resolve/TotalProofs.v) *)
+Fixpoint import_rounds (n : nat) (ast : past) : M unit :=
+  match n with
+  | 0 => fun _ => OutOfFuel
+  | S n' => fun st =>
+      match quiet_round ast st with
+      | Ok (_, st') =>
+          if Nat.eqb (names_count st') (names_count st) then Ok (tt, st') else import_rounds n' ast st'
+      | r => r
+      end
+  end.
+
+Definition import_items_s (s : pstmt) : nat :=
+  match s with PUse _ _ _ _ => 1 | PFromUse _ imports _ _ => length imports | _ => 0 end.
+
+Definition import_items (ast : past) : nat :=
+  fold_right (fun m n => fold_right (fun s k => import_items_s s + k) 0 (m_stmts m) + n) 0 ast.
+
+Definition report_pass (ast : past) : M unit :=
+  for_each (fun m => resolve_global_variables (m_file m) (m_stmts m)) ast.
+
+Definition import_pass (fx : bool) (ast : past) : M unit :=
+  _ <- (if fx then import_rounds (S (import_items ast)) ast else ret tt) ;;
+  report_pass ast.
+
 (* statement depth, for the fuel of a whole program *)
 Definition list_max {A} (f : A -> nat) : list A -> nat :=
   fix go (l : list A) : nat :=
@@ -690,7 +742,7 @@ Definition init_state (ast : past) : rstate :=
 (* pub fn resolve *)
 Definition resolve_m (fl : rflags) (fuel : nat) (ast : past) : M (list stmt) :=
   _ <- for_each insert_namespace_and_add_definitions ast ;;
-  _ <- for_each (fun m => resolve_global_variables (m_file m) (m_stmts m)) ast ;;
+  _ <- import_pass (imports_fixpoint fl) ast ;;
   out <- block_with (stmt_r fl fuel) (flat_map m_stmts ast) ;;
   start <- lift (fun st => lookup_global st 0 "start") ;;
   match start with
